@@ -19,6 +19,8 @@ def sh(cmd, cwd=None, timeout=3600):
 
 
 def main():
+    if sys.argv[1] == "--recheck":
+        return recheck(sys.argv[2], sys.argv[3:])
     seed, name, props = sys.argv[1], sys.argv[2], sys.argv[3:]
     patch = os.path.join(seed, "patch.diff")
     demo = os.path.join(seed, "demo.rs")
@@ -85,6 +87,49 @@ def main():
     shutil.copy(demo, os.path.join(out, "demo.rs"))
     if os.path.exists(os.path.join(seed, "README.md")):
         shutil.copy(os.path.join(seed, "README.md"), os.path.join(out, "README.md"))
+    json.dump(meta, open(os.path.join(out, "meta.json"), "w"), indent=1)
+    print(json.dumps({k: meta[k] for k in ["name", "confirmed", "caught_by"]}, indent=1))
+    for p, r in results.items():
+        print(p, r["exit"], r["verdict"][:200])
+
+
+def run_checks(patch, props):
+    results = {}
+    rc, o = sh(["git", "-C", "/repo", "apply", os.path.abspath(patch)])
+    assert rc == 0, o
+    try:
+        for p in props:
+            t0 = time.time()
+            rc, o = sh([sys.executable, os.path.join(ROOT, "tools", "check.py"), "--property", p, "--tier", "quick"], cwd=ROOT)
+            viol = [l for l in o.split("\n") if l.startswith("VIOLATION")]
+            verdict = ""
+            rp = os.path.join(ROOT, "evidence", "replay", "%s-1.json" % p)
+            if viol and os.path.exists(rp):
+                d = json.load(open(rp))
+                verdict = (d.get("case") or {}).get("verdict", "") or "; ".join(d.get("no_longer_checks", []))[:300]
+            results[p] = {"exit": rc, "violation_line": viol[:1], "verdict": verdict[:400], "wall_s": round(time.time() - t0, 1)}
+    finally:
+        sh(["git", "-C", "/repo", "checkout", "--", "."])
+        for p in props:
+            sh([sys.executable, os.path.join(ROOT, "tools", "check.py"), "--property", p, "--tier", "quick"], cwd=ROOT)
+    return results
+
+
+def recheck(name, props):
+    """tools/seed_eval.py --recheck <name> <property>…: run the quick checks again against an
+    already confirmed seed (after a check was strengthened); earlier results are kept."""
+    out = os.path.join(ROOT, "seeded", name)
+    meta = json.load(open(os.path.join(out, "meta.json")))
+    assert meta.get("confirmed"), "not a confirmed seed"
+    results = run_checks(os.path.join(out, "patch.diff"), props)
+    meta.setdefault("earlier_runs", []).append({"check_results": meta.get("check_results"), "caught_by": meta.get("caught_by")})
+    merged = dict(meta.get("check_results") or {})
+    merged.update(results)
+    meta["check_results"] = merged
+    meta["caught_by"] = [p for p, r in merged.items() if r["exit"] != 0]
+    for p in props:
+        if p not in meta["checked_properties"]:
+            meta["checked_properties"].append(p)
     json.dump(meta, open(os.path.join(out, "meta.json"), "w"), indent=1)
     print(json.dumps({k: meta[k] for k in ["name", "confirmed", "caught_by"]}, indent=1))
     for p, r in results.items():
